@@ -5412,3 +5412,1124 @@ def function_of_fields(e, item_name, fields):
         # may tell two items apart
         return False
     return True
+
+
+# ---------------------------------------------------------------------------------------------------------------------
+# Concrete evaluation of a small, closed piece of the program (C06.g: the expiry step of TimeoutDict).
+#
+# The checker's OWN interpreter of syntax trees over its OWN values: nothing of the analysed repository is imported,
+# compiled, exec'd or eval'd.  The values are Python containers built by the interpreter (dict / set / list / tuple of
+# opaque tokens) on which the operations of the interpreted code are carried out with the real semantics of the
+# built-in types (so that `d.keys() - s`, `dict(filter(f, d.items()))`, `del d[k]` while `d` is being iterated -- a
+# RuntimeError --, aliasing of a local with a field, lazily consumed generators, late-binding closures ... behave as
+# they do in the program).  A construct outside this vocabulary raises `CUnsupported`: the caller then decides the
+# clause with the symbolic executor (or refuses), never by guessing.
+
+import builtins as _bi
+import collections as _co
+import contextlib as _cl
+import copy as _cp
+import functools as _ft
+import itertools as _it
+import operator as _op
+import types as _ty
+
+from ..rulekit import is_log_call as _is_log_call
+from ..model import walk_no_nested as _walk_no_nested
+
+
+class CUnsupported(Exception):
+    """the interpreted code uses something the concrete evaluator does not model"""
+
+
+class CRaise(Exception):
+    """a Python-level exception raised by the interpreted code"""
+
+    def __init__(self, exc, node=None):
+        Exception.__init__(self, repr(exc))
+        self.exc = exc
+        self.node = node
+
+
+class _CReturn(Exception):
+    def __init__(self, value):
+        self.value = value
+
+
+class _CBreak(Exception):
+    pass
+
+
+class _CContinue(Exception):
+    pass
+
+
+class CVal:
+    """an opaque stored value (compared by identity)"""
+
+    def __init__(self, name):
+        self.name = name
+
+    def __repr__(self):
+        return "<%s>" % self.name
+
+
+class CHandle:
+    """what loop.call_later / call_at / call_soon returns"""
+
+    def __init__(self, delay, callback, args):
+        self.delay, self.callback, self.args = delay, callback, args
+        self.cancelled = False
+
+    def __repr__(self):
+        return "<timer handle>"
+
+
+class CLoop:
+    """the running event loop: records the timers that are armed"""
+
+    def __init__(self):
+        self.handles = []
+        self.now = 1000.0
+
+
+class CModule:
+    def __init__(self, qn):
+        self.qn = qn
+
+
+class CObj:
+    """an instance of a class of the program: a bag of fields"""
+
+    def __init__(self, cls, fields):
+        self.cls = cls
+        self.fields = dict(fields)
+
+    def __repr__(self):
+        return "<%s instance>" % self.cls.qn.split(".")[-1]
+
+
+class CClosure:
+    """lambda / def of the interpreted program, callable from the built-ins (filter, sorted(key=), partial, map)"""
+
+    def __init__(self, ev, node, scope, module, defaults, kw_defaults):
+        self.ev, self.node, self.scope, self.module = ev, node, scope, module
+        self.defaults, self.kw_defaults = defaults, kw_defaults
+
+    def __call__(self, *a, **k):
+        return self.ev.apply(self, list(a), dict(k))
+
+
+class CMethod:
+    """a method of the program bound to an instance"""
+
+    def __init__(self, ev, fi, obj):
+        self.ev, self.fi, self.obj = ev, fi, obj
+        self.name = fi.name
+
+    def __call__(self, *a, **k):
+        return self.ev.call_method(self.obj, self.fi, list(a), dict(k))
+
+    def __eq__(self, o):
+        return isinstance(o, CMethod) and o.fi is self.fi and o.obj is self.obj
+
+    def __hash__(self):
+        return hash((id(self.fi), id(self.obj)))
+
+
+class _CPrim:
+    """a primitive of the model (loop.call_later, handle.cancel, ...)"""
+
+    def __init__(self, fn):
+        self.fn = fn
+
+    def __call__(self, *a, **k):
+        return self.fn(*a, **k)
+
+
+class _CScope:
+    def __init__(self, vars_, parent, locals_=frozenset(), comp=False, nonlocals=frozenset(), module=None):
+        self.vars = vars_
+        self.parent = parent
+        self.locals = locals_
+        self.comp = comp
+        self.nonlocals = nonlocals
+        self.module = module if module is not None else (parent.module if parent is not None else None)
+
+
+_C_BUILTINS = {
+    n: getattr(_bi, n)
+    for n in (
+        "dict list set frozenset tuple sorted len bool iter next any all zip map filter enumerate reversed isinstance min max sum "
+        "range int str callable object abs divmod slice"
+    ).split()
+}
+_C_BUILTINS.update({n: v for n, v in vars(_bi).items() if isinstance(v, type) and issubclass(v, BaseException)})
+_C_SAFE = {
+    "functools.partial": _ft.partial,
+    "functools.reduce": _ft.reduce,
+    "itertools.filterfalse": _it.filterfalse,
+    "itertools.chain": _it.chain,
+    "itertools.compress": _it.compress,
+    "itertools.starmap": _it.starmap,
+    "itertools.takewhile": _it.takewhile,
+    "itertools.dropwhile": _it.dropwhile,
+    "itertools.islice": _it.islice,
+    "operator.contains": _op.contains,
+    "operator.itemgetter": _op.itemgetter,
+    "operator.not_": _op.not_,
+    "operator.getitem": _op.getitem,
+    "operator.delitem": _op.delitem,
+    "operator.setitem": _op.setitem,
+    "operator.truth": _op.truth,
+    "operator.is_": _op.is_,
+    "operator.is_not": _op.is_not,
+    "operator.eq": _op.eq,
+    "operator.ne": _op.ne,
+    "copy.copy": _cp.copy,
+    "collections.OrderedDict": _co.OrderedDict,
+    "contextlib.suppress": _cl.suppress,
+}
+_C_SAFE_MODULES = {"functools", "itertools", "operator", "copy", "collections", "contextlib", "asyncio"}
+_C_VALUE_TYPES = (dict, set, frozenset, list, tuple, str, int, bool, float, type(None), type({}.keys()), type({}.values()), type({}.items()), _co.OrderedDict, slice, range)
+_C_DUNDERS = {"__contains__", "__getitem__", "__setitem__", "__delitem__", "__len__", "__iter__", "__eq__", "__ne__", "__or__", "__and__", "__sub__", "__xor__", "__ior__", "__isub__", "__iand__", "__call__"}
+_C_BINOPS = {
+    ast.Add: _op.add, ast.Sub: _op.sub, ast.Mult: _op.mul, ast.Div: _op.truediv, ast.FloorDiv: _op.floordiv, ast.Mod: _op.mod, ast.Pow: _op.pow,
+    ast.BitOr: _op.or_, ast.BitAnd: _op.and_, ast.BitXor: _op.xor, ast.LShift: _op.lshift, ast.RShift: _op.rshift,
+}
+_C_IBINOPS = {
+    ast.Add: _op.iadd, ast.Sub: _op.isub, ast.Mult: _op.imul, ast.Div: _op.itruediv, ast.FloorDiv: _op.ifloordiv, ast.Mod: _op.imod, ast.Pow: _op.ipow,
+    ast.BitOr: _op.ior, ast.BitAnd: _op.iand, ast.BitXor: _op.ixor, ast.LShift: _op.ilshift, ast.RShift: _op.irshift,
+}
+_C_CMPOPS = {
+    ast.Eq: _op.eq, ast.NotEq: _op.ne, ast.Lt: _op.lt, ast.LtE: _op.le, ast.Gt: _op.gt, ast.GtE: _op.ge, ast.Is: _op.is_, ast.IsNot: _op.is_not,
+    ast.In: lambda a, b: _op.contains(b, a), ast.NotIn: lambda a, b: not _op.contains(b, a),
+}
+
+
+def _c_bound_names(fnode):
+    """(names bound in the body of a def/lambda, names declared nonlocal/global)"""
+    bound, free = set(), set()
+    if isinstance(fnode, ast.Lambda):
+        return bound, free
+    for n in _walk_no_nested(fnode):
+        if n is fnode:
+            continue
+        if isinstance(n, ast.Name) and isinstance(n.ctx, (ast.Store, ast.Del)):
+            bound.add(n.id)
+        elif isinstance(n, (ast.FunctionDef, ast.AsyncFunctionDef, ast.ClassDef)):
+            bound.add(n.name)
+        elif isinstance(n, ast.ExceptHandler) and n.name:
+            bound.add(n.name)
+        elif isinstance(n, (ast.Import, ast.ImportFrom)):
+            for a in n.names:
+                bound.add((a.asname or a.name).split(".")[0])
+        elif isinstance(n, (ast.Global, ast.Nonlocal)):
+            free.update(n.names)
+    # targets of comprehensions live in the comprehension's own scope
+    for n in _walk_no_nested(fnode):
+        if isinstance(n, (ast.ListComp, ast.SetComp, ast.DictComp, ast.GeneratorExp)):
+            for g in n.generators:
+                for t in ast.walk(g.target):
+                    if isinstance(t, ast.Name) and not _c_assigned_outside_comps(fnode, t.id):
+                        bound.discard(t.id)
+    return bound - free, free
+
+
+def _c_assigned_outside_comps(fnode, name):
+    def visit(n, in_comp):
+        for c in ast.iter_child_nodes(n):
+            if isinstance(c, (ast.FunctionDef, ast.AsyncFunctionDef, ast.Lambda, ast.ClassDef)):
+                if not isinstance(c, ast.Lambda) and c.name == name and not in_comp:
+                    return True
+                continue
+            if isinstance(c, (ast.ListComp, ast.SetComp, ast.DictComp, ast.GeneratorExp)):
+                # a walrus inside a comprehension binds in the function
+                if any(isinstance(x, ast.NamedExpr) and x.target.id == name for x in ast.walk(c)):
+                    return True
+                continue
+            if isinstance(c, ast.Name) and c.id == name and isinstance(c.ctx, (ast.Store, ast.Del)) and not in_comp:
+                return True
+            if isinstance(c, ast.ExceptHandler) and c.name == name:
+                return True
+            if visit(c, in_comp):
+                return True
+        return False
+
+    return visit(fnode, False)
+
+
+class ConcreteEval:
+    """Interpreter of function bodies over concrete values (see the section comment)."""
+
+    def __init__(self, prog, max_steps=200000, max_depth=12, loop=None):
+        self.prog = prog
+        self.steps = 0
+        self.max_steps = max_steps
+        self.depth = 0
+        self.max_depth = max_depth
+        self.loop = loop if loop is not None else CLoop()
+        self.on_stmt = None  # hook(stmt, depth) after every executed statement
+        self._modconst = {}
+        self._handling = []
+
+    # -- driver -------------------------------------------------------------------------------------------------------
+    def call_method(self, obj, fi, args, kwargs=None):
+        if fi.is_async:
+            raise CUnsupported("coroutine %s" % fi.short)
+        clo = CClosure(self, fi.node, _CScope({}, None, module=fi.module), fi.module, *self._defaults(fi.node, _CScope({}, None, module=fi.module)))
+        return self.apply(clo, [obj] + list(args), dict(kwargs or {}))
+
+    def tick(self, node=None):
+        self.steps += 1
+        if self.steps > self.max_steps:
+            raise CUnsupported("step budget exhausted")
+
+    def _defaults(self, fnode, scope):
+        a = fnode.args
+        return [self.ev(d, scope) for d in a.defaults], [None if d is None else self.ev(d, scope) for d in a.kw_defaults]
+
+    def apply(self, clo, args, kwargs):
+        node = clo.node
+        if isinstance(node, ast.AsyncFunctionDef):
+            raise CUnsupported("coroutine function")
+        if not isinstance(node, ast.Lambda) and any(isinstance(n, (ast.Yield, ast.YieldFrom)) for n in _walk_no_nested(node)):
+            raise CUnsupported("generator function %s" % node.name)
+        if not isinstance(node, ast.Lambda) and node.decorator_list:
+            raise CUnsupported("decorated function %s" % node.name)
+        a = node.args
+        pos = [x.arg for x in a.posonlyargs + a.args]
+        vars_ = {}
+        if len(args) > len(pos) and a.vararg is None:
+            raise CRaise(TypeError("too many positional arguments"), node)
+        for n_, v in zip(pos, args):
+            vars_[n_] = v
+        if a.vararg is not None:
+            vars_[a.vararg.arg] = tuple(args[len(pos):])
+        extra = {}
+        for k, v in kwargs.items():
+            if k in vars_:
+                raise CRaise(TypeError("multiple values for argument %r" % k), node)
+            if k in pos[len(a.posonlyargs):] or k in [x.arg for x in a.kwonlyargs]:
+                vars_[k] = v
+            elif a.kwarg is not None:
+                extra[k] = v
+            else:
+                raise CRaise(TypeError("unexpected keyword argument %r" % k), node)
+        if a.kwarg is not None:
+            vars_[a.kwarg.arg] = extra
+        nd = len(clo.defaults)
+        for i, n_ in enumerate(pos):
+            if n_ not in vars_:
+                j = i - (len(pos) - nd)
+                if j < 0:
+                    raise CRaise(TypeError("missing argument %r" % n_), node)
+                vars_[n_] = clo.defaults[j]
+        for x, d in zip(a.kwonlyargs, clo.kw_defaults):
+            if x.arg not in vars_:
+                if d is None and a.kw_defaults[a.kwonlyargs.index(x)] is None:
+                    raise CRaise(TypeError("missing keyword argument %r" % x.arg), node)
+                vars_[x.arg] = d
+        bound, free = _c_bound_names(node)
+        scope = _CScope(vars_, clo.scope, locals_=frozenset(bound) | frozenset(vars_), nonlocals=frozenset(free), module=clo.module)
+        self.depth += 1
+        try:
+            if self.depth > self.max_depth:
+                raise CUnsupported("call depth")
+            if isinstance(node, ast.Lambda):
+                return self.ev(node.body, scope)
+            try:
+                self.block(node.body, scope)
+            except _CReturn as r:
+                return r.value
+            return None
+        finally:
+            self.depth -= 1
+
+    # -- names --------------------------------------------------------------------------------------------------------
+    def load(self, name, scope, node=None):
+        s = scope
+        while s is not None:
+            if name in s.vars:
+                return s.vars[name]
+            if name in s.locals and not s.comp and name not in s.nonlocals:
+                raise CUnsupported("local %s read before it is bound" % name)
+            s = s.parent
+        return self.module_name(scope.module, name)
+
+    def module_name(self, module, name):
+        if module is None:
+            raise CUnsupported("name %s" % name)
+        key = (module.name, name)
+        if key in self._modconst:
+            return self._modconst[key]
+        qn = module.name + "." + name
+        if qn in self.prog.funcs and self.prog.funcs[qn].cls is None and self.prog.funcs[qn].parent is None:
+            fi = self.prog.funcs[qn]
+            sc = _CScope({}, None, module=module)
+            v = CClosure(self, fi.node, sc, module, *self._defaults(fi.node, sc))
+            self._modconst[key] = v
+            return v
+        if qn in self.prog.classes:
+            raise CUnsupported("class %s used as a value" % qn)
+        found = None
+        for st in module.tree.body:
+            if isinstance(st, ast.Assign):
+                for t in st.targets:
+                    if isinstance(t, ast.Name) and t.id == name:
+                        found = (found or 0) + 1
+                        expr = st.value
+            elif isinstance(st, ast.AnnAssign) and isinstance(st.target, ast.Name) and st.target.id == name and st.value is not None:
+                found = (found or 0) + 1
+                expr = st.value
+        if found == 1:
+            v = self.ev(expr, _CScope({}, None, module=module))
+            if isinstance(v, (dict, set, list)):
+                raise CUnsupported("mutable module-level object %s" % name)
+            self._modconst[key] = v
+            return v
+        if found:
+            raise CUnsupported("module-level name %s assigned several times" % name)
+        if name in module.imports:
+            q = module.imports[name]
+            if q in _C_SAFE:
+                return _C_SAFE[q]
+            if q in _C_SAFE_MODULES:
+                return CModule(q)
+            if q in self.prog.funcs and self.prog.funcs[q].cls is None and self.prog.funcs[q].parent is None:
+                fi = self.prog.funcs[q]
+                sc = _CScope({}, None, module=fi.module)
+                return CClosure(self, fi.node, sc, fi.module, *self._defaults(fi.node, sc))
+            if q.split(".")[0] == "asyncio":
+                return self.asyncio_attr(q.split(".", 1)[1]) if "." in q else CModule("asyncio")
+            raise CUnsupported("imported name %s (%s)" % (name, q))
+        if name in _C_BUILTINS:
+            return _C_BUILTINS[name]
+        if name == "print":
+            return _CPrim(lambda *a, **k: None)
+        raise CUnsupported("name %s" % name)
+
+    def asyncio_attr(self, attr):
+        if attr in ("get_running_loop", "get_event_loop"):
+            return _CPrim(lambda: self.loop)
+        raise CUnsupported("asyncio.%s" % attr)
+
+    def store(self, name, v, scope):
+        s = scope
+        while s is not None and s.comp:
+            s = s.parent
+        if s is None:
+            raise CUnsupported("binding of %s outside a function" % name)
+        if name in s.nonlocals:
+            t = s.parent
+            while t is not None:
+                if name in t.vars and not t.comp:
+                    t.vars[name] = v
+                    return
+                t = t.parent
+            raise CUnsupported("global/nonlocal %s" % name)
+        s.vars[name] = v
+
+    # -- attributes ---------------------------------------------------------------------------------------------------
+    def getattr_(self, v, attr, node=None):
+        if isinstance(v, CObj):
+            if attr in v.fields:
+                return v.fields[attr]
+            fi = self.prog.lookup_method(v.cls.qn, attr)
+            if fi is not None:
+                decos = [chain(d) for d in fi.node.decorator_list]
+                if decos == ["property"]:
+                    return self.call_method(v, fi, [])
+                if decos:
+                    raise CUnsupported("decorated method %s" % attr)
+                return CMethod(self, fi, v)
+            ca = self.prog.class_attr(v.cls.qn, attr)
+            if ca is not None and ca[0] is not None:
+                return self.ev(ca[0], _CScope({}, None, module=ca[1].module))
+            # the instance was built by running __init__: a field it does not set is more likely set somewhere the model
+            # does not see than a genuine AttributeError
+            raise CUnsupported("attribute %s of the instance is not set by __init__" % attr)
+        if isinstance(v, CModule):
+            q = v.qn + "." + attr
+            if q in _C_SAFE:
+                return _C_SAFE[q]
+            if v.qn == "asyncio":
+                return self.asyncio_attr(attr)
+            raise CUnsupported(q)
+        if isinstance(v, CLoop):
+            if attr == "call_later":
+                return _CPrim(lambda delay, cb, *args: self._arm(delay, cb, args))
+            if attr == "call_at":
+                return _CPrim(lambda when, cb, *args: self._arm(when - v.now, cb, args))
+            if attr == "call_soon":
+                return _CPrim(lambda cb, *args: self._arm(0, cb, args))
+            if attr == "time":
+                return _CPrim(lambda: v.now)
+            raise CUnsupported("loop.%s" % attr)
+        if isinstance(v, CHandle):
+            if attr == "cancel":
+                return _CPrim(lambda: setattr(v, "cancelled", True))
+            if attr == "cancelled":
+                return _CPrim(lambda: v.cancelled)
+            if attr == "when":
+                return _CPrim(lambda: self.loop.now + v.delay)
+            raise CUnsupported("handle.%s" % attr)
+        if isinstance(v, (CVal, CClosure, CMethod, _CPrim)):
+            raise CUnsupported("attribute %s of %r" % (attr, v))
+        if type(v) in _C_VALUE_TYPES or isinstance(v, (_ft.partial, _cl.suppress)) or isinstance(v, BaseException):
+            if attr.startswith("_") and attr not in _C_DUNDERS:
+                raise CUnsupported("attribute %s" % attr)
+            try:
+                return getattr(v, attr)
+            except AttributeError as e:
+                raise CRaise(e, node)
+        raise CUnsupported("attribute %s of a %s" % (attr, type(v).__name__))
+
+    def _arm(self, delay, cb, args):
+        h = CHandle(delay, cb, tuple(args))
+        self.loop.handles.append(h)
+        return h
+
+    # -- calls --------------------------------------------------------------------------------------------------------
+    def call(self, f, args, kwargs, node=None):
+        if isinstance(f, (CClosure, CMethod, _CPrim)):
+            pass
+        elif isinstance(f, (_ty.BuiltinFunctionType, _ty.BuiltinMethodType, _ty.MethodWrapperType, _ty.MethodDescriptorType, _ft.partial, _op.itemgetter)):
+            pass
+        elif isinstance(f, type) and (f in _C_BUILTINS.values() or f in _C_SAFE.values()):
+            pass
+        elif any(f is x for x in _C_SAFE.values()) or any(f is x for x in _C_BUILTINS.values()):
+            pass
+        else:
+            if f is None or type(f) in _C_VALUE_TYPES:
+                raise CRaise(TypeError("%r is not callable" % (f,)), node)
+            raise CUnsupported("call of %r" % (f,))
+        try:
+            return f(*args, **kwargs)
+        except (CUnsupported, CRaise):
+            raise
+        except (_CReturn, _CBreak, _CContinue):
+            raise
+        except RecursionError:
+            raise CUnsupported("recursion")
+        except Exception as e:  # raised by an operation of a built-in type on the interpreter's values
+            raise CRaise(e, node)
+
+    # -- expressions --------------------------------------------------------------------------------------------------
+    def ev(self, e, scope):
+        self.tick()
+        m = getattr(self, "ev_" + type(e).__name__, None)
+        if m is None:
+            raise CUnsupported("expression %s" % type(e).__name__)
+        return m(e, scope)
+
+    def ev_Constant(self, e, scope):
+        return e.value
+
+    def ev_Name(self, e, scope):
+        return self.load(e.id, scope, e)
+
+    def ev_Attribute(self, e, scope):
+        return self.getattr_(self.ev(e.value, scope), e.attr, e)
+
+    def ev_NamedExpr(self, e, scope):
+        v = self.ev(e.value, scope)
+        self.store(e.target.id, v, scope)
+        return v
+
+    def _seq(self, elts, scope):
+        out = []
+        for x in elts:
+            if isinstance(x, ast.Starred):
+                out.extend(self.iterate(self.ev(x.value, scope), x))
+            else:
+                out.append(self.ev(x, scope))
+        return out
+
+    def iterate(self, v, node=None):
+        """a Python iterator over a value of the interpreter"""
+        if isinstance(v, (CObj, CVal, CHandle, CLoop, CModule, CClosure, CMethod, _CPrim)):
+            raise CRaise(TypeError("%r is not iterable" % (v,)), node)
+        try:
+            it = iter(v)
+        except (CUnsupported, CRaise):
+            raise
+        except Exception as ex:
+            raise CRaise(ex, node)
+        return self._guarded(it, node)
+
+    def _guarded(self, it, node):
+        while True:
+            try:
+                x = next(it)
+            except StopIteration:
+                return
+            except (CUnsupported, CRaise):
+                raise
+            except Exception as ex:
+                raise CRaise(ex, node)
+            yield x
+
+    def ev_Tuple(self, e, scope):
+        return tuple(self._seq(e.elts, scope))
+
+    def ev_List(self, e, scope):
+        return list(self._seq(e.elts, scope))
+
+    def ev_Set(self, e, scope):
+        return self._py(lambda: set(self._seq(e.elts, scope)), e)
+
+    def _py(self, thunk, node):
+        try:
+            return thunk()
+        except (CUnsupported, CRaise, _CReturn, _CBreak, _CContinue):
+            raise
+        except Exception as ex:
+            raise CRaise(ex, node)
+
+    def ev_Dict(self, e, scope):
+        d = {}
+        for k, v in zip(e.keys, e.values):
+            if k is None:
+                m = self.ev(v, scope)
+                if not isinstance(m, dict):
+                    raise CUnsupported("** of a non-dict")
+                d.update(m)
+            else:
+                kk = self.ev(k, scope)
+                vv = self.ev(v, scope)
+                self._py(lambda: d.__setitem__(kk, vv), e)
+        return d
+
+    def ev_JoinedStr(self, e, scope):
+        for x in e.values:
+            if isinstance(x, ast.FormattedValue):
+                self.ev(x.value, scope)
+        return "<formatted>"
+
+    def ev_UnaryOp(self, e, scope):
+        v = self.ev(e.operand, scope)
+        if isinstance(e.op, ast.Not):
+            return not self.truth(v, e)
+        f = {ast.USub: _op.neg, ast.UAdd: _op.pos, ast.Invert: _op.invert}[type(e.op)]
+        return self._py(lambda: f(v), e)
+
+    def truth(self, v, node=None):
+        if isinstance(v, (CObj, CVal, CHandle, CLoop, CClosure, CMethod, _CPrim, CModule)):
+            if isinstance(v, CObj) and (self.prog.lookup_method(v.cls.qn, "__bool__") or self.prog.lookup_method(v.cls.qn, "__len__")):
+                raise CUnsupported("truth of an instance with __bool__/__len__")
+            return True
+        return self._py(lambda: bool(v), node)
+
+    def ev_BoolOp(self, e, scope):
+        v = None
+        for x in e.values:
+            v = self.ev(x, scope)
+            t = self.truth(v, x)
+            if isinstance(e.op, ast.And) and not t:
+                return v
+            if isinstance(e.op, ast.Or) and t:
+                return v
+        return v
+
+    def ev_IfExp(self, e, scope):
+        return self.ev(e.body if self.truth(self.ev(e.test, scope), e.test) else e.orelse, scope)
+
+    def ev_BinOp(self, e, scope):
+        a = self.ev(e.left, scope)
+        b = self.ev(e.right, scope)
+        f = _C_BINOPS.get(type(e.op))
+        if f is None:
+            raise CUnsupported("operator %s" % type(e.op).__name__)
+        self._plain(a, b)
+        return self._py(lambda: f(a, b), e)
+
+    def _plain(self, *vs):
+        for v in vs:
+            if isinstance(v, CObj):
+                raise CUnsupported("operator on an instance of the program")
+
+    def ev_Compare(self, e, scope):
+        a = self.ev(e.left, scope)
+        for op, r in zip(e.ops, e.comparators):
+            b = self.ev(r, scope)
+            if not isinstance(op, (ast.Is, ast.IsNot)):
+                self._plain(a, b)
+            f = _C_CMPOPS[type(op)]
+            res = self._py(lambda: f(a, b), e)
+            if not self.truth(res, e):
+                return res
+            a = b
+        return res
+
+    def ev_Subscript(self, e, scope):
+        v = self.ev(e.value, scope)
+        k = self.ev(e.slice, scope)
+        self._plain(v)
+        if isinstance(v, (CVal, CHandle, CLoop, CModule, CClosure, CMethod, _CPrim)):
+            raise CRaise(TypeError("not subscriptable"), e)
+        return self._py(lambda: v[k], e)
+
+    def ev_Slice(self, e, scope):
+        return slice(*(None if x is None else self.ev(x, scope) for x in (e.lower, e.upper, e.step)))
+
+    def ev_Lambda(self, e, scope):
+        return CClosure(self, e, scope, scope.module, *self._defaults(e, scope))
+
+    def ev_Call(self, e, scope):
+        if _is_log_call(e):
+            return None
+        f = self.ev(e.func, scope)
+        args = self._seq(e.args, scope)
+        kwargs = {}
+        for k in e.keywords:
+            if k.arg is None:
+                m = self.ev(k.value, scope)
+                if not isinstance(m, dict):
+                    raise CUnsupported("** of a non-dict")
+                kwargs.update(m)
+            else:
+                kwargs[k.arg] = self.ev(k.value, scope)
+        return self.call(f, args, kwargs, e)
+
+    # comprehensions: the first iterable is evaluated in the enclosing scope, the rest in the comprehension's own scope;
+    # a generator expression is consumed lazily (as in Python), the others at once
+    def _comp_iter(self, gens, scope, first, emit):
+        def rec(i, sc):
+            g = gens[i]
+            if g.is_async:
+                raise CUnsupported("async comprehension")
+            src = first if i == 0 else self.iterate(self.ev(g.iter, sc), g.iter)
+            for x in src:
+                self.tick()
+                self.bind(g.target, x, sc, comp=True)
+                if all(self.truth(self.ev(c, sc), c) for c in g.ifs):
+                    if i + 1 < len(gens):
+                        yield from rec(i + 1, sc)
+                    else:
+                        yield emit(sc)
+
+        return rec(0, _CScope({}, scope, comp=True))
+
+    def _comp(self, e, scope, emit):
+        first = self.iterate(self.ev(e.generators[0].iter, scope), e.generators[0].iter)
+        return self._comp_iter(e.generators, scope, first, emit)
+
+    def ev_ListComp(self, e, scope):
+        return list(self._comp(e, scope, lambda sc: self.ev(e.elt, sc)))
+
+    def ev_SetComp(self, e, scope):
+        return self._py(lambda: set(self._comp(e, scope, lambda sc: self.ev(e.elt, sc))), e)
+
+    def ev_GeneratorExp(self, e, scope):
+        return self._comp(e, scope, lambda sc: self.ev(e.elt, sc))
+
+    def ev_DictComp(self, e, scope):
+        d = {}
+        for k, v in self._comp(e, scope, lambda sc: (self.ev(e.key, sc), self.ev(e.value, sc))):
+            self._py(lambda: d.__setitem__(k, v), e)
+        return d
+
+    # -- binding ------------------------------------------------------------------------------------------------------
+    def bind(self, t, v, scope, comp=False):
+        if isinstance(t, ast.Name):
+            if comp:
+                scope.vars[t.id] = v
+            else:
+                self.store(t.id, v, scope)
+        elif isinstance(t, (ast.Tuple, ast.List)):
+            vals = list(self.iterate(v, t))
+            stars = [i for i, x in enumerate(t.elts) if isinstance(x, ast.Starred)]
+            if not stars:
+                if len(vals) != len(t.elts):
+                    raise CRaise(ValueError("unpacking %d values into %d targets" % (len(vals), len(t.elts))), t)
+                for x, y in zip(t.elts, vals):
+                    self.bind(x, y, scope, comp)
+            else:
+                i = stars[0]
+                after = len(t.elts) - i - 1
+                if len(vals) < len(t.elts) - 1:
+                    raise CRaise(ValueError("not enough values to unpack"), t)
+                for x, y in zip(t.elts[:i], vals[:i]):
+                    self.bind(x, y, scope, comp)
+                self.bind(t.elts[i].value, vals[i: len(vals) - after], scope, comp)
+                for x, y in zip(t.elts[i + 1:], vals[len(vals) - after:]):
+                    self.bind(x, y, scope, comp)
+        elif isinstance(t, ast.Attribute):
+            o = self.ev(t.value, scope)
+            if not isinstance(o, CObj):
+                raise CUnsupported("attribute store on %r" % (o,))
+            fi = self.prog.lookup_method(o.cls.qn, t.attr)
+            if fi is not None:
+                raise CUnsupported("store to the method/property %s" % t.attr)
+            o.fields[t.attr] = v
+        elif isinstance(t, ast.Subscript):
+            o = self.ev(t.value, scope)
+            k = self.ev(t.slice, scope)
+            self._plain(o)
+            if not isinstance(o, (dict, list)):
+                raise CRaise(TypeError("item assignment on %r" % (o,)), t)
+            self._py(lambda: o.__setitem__(k, v), t)
+        else:
+            raise CUnsupported("assignment target %s" % type(t).__name__)
+
+    # -- statements ---------------------------------------------------------------------------------------------------
+    def block(self, stmts, scope):
+        for s in stmts:
+            self.tick()
+            m = getattr(self, "do_" + type(s).__name__, None)
+            if m is None:
+                raise CUnsupported("statement %s" % type(s).__name__)
+            try:
+                m(s, scope)
+            finally:
+                if self.on_stmt is not None:
+                    self.on_stmt(s, self.depth)
+
+    def do_Expr(self, s, scope):
+        if isinstance(s.value, ast.Constant):
+            return
+        self.ev(s.value, scope)
+
+    def do_Pass(self, s, scope):
+        pass
+
+    def do_Assign(self, s, scope):
+        v = self.ev(s.value, scope)
+        for t in s.targets:
+            self.bind(t, v, scope)
+
+    def do_AnnAssign(self, s, scope):
+        if s.value is not None:
+            self.bind(s.target, self.ev(s.value, scope), scope)
+
+    def do_AugAssign(self, s, scope):
+        f = _C_IBINOPS.get(type(s.op))
+        if f is None:
+            raise CUnsupported("operator %s" % type(s.op).__name__)
+        t = s.target
+        if isinstance(t, ast.Name):
+            a = self.load(t.id, scope, t)
+            b = self.ev(s.value, scope)
+            self._plain(a, b)
+            self.store(t.id, self._py(lambda: f(a, b), s), scope)
+        elif isinstance(t, ast.Attribute):
+            o = self.ev(t.value, scope)
+            if not isinstance(o, CObj):
+                raise CUnsupported("attribute store on %r" % (o,))
+            a = self.getattr_(o, t.attr, t)
+            b = self.ev(s.value, scope)
+            self._plain(a, b)
+            o.fields[t.attr] = self._py(lambda: f(a, b), s)
+        elif isinstance(t, ast.Subscript):
+            o = self.ev(t.value, scope)
+            k = self.ev(t.slice, scope)
+            self._plain(o)
+            if not isinstance(o, (dict, list)):
+                raise CRaise(TypeError("item assignment"), t)
+            a = self._py(lambda: o[k], t)
+            b = self.ev(s.value, scope)
+            self._plain(a, b)
+            r = self._py(lambda: f(a, b), s)
+            self._py(lambda: o.__setitem__(k, r), t)
+        else:
+            raise CUnsupported("augmented assignment target")
+
+    def do_Delete(self, s, scope):
+        for t in s.targets:
+            if isinstance(t, ast.Subscript):
+                o = self.ev(t.value, scope)
+                k = self.ev(t.slice, scope)
+                if not isinstance(o, (dict, list)):
+                    raise CRaise(TypeError("item deletion on %r" % (o,)), t) if not isinstance(o, CObj) else CUnsupported("item deletion on an instance")
+                self._py(lambda: o.__delitem__(k), t)
+            elif isinstance(t, ast.Name):
+                sc = scope
+                while sc is not None and sc.comp:
+                    sc = sc.parent
+                if sc is None or t.id not in sc.vars:
+                    raise CUnsupported("del of the unbound name %s" % t.id)
+                del sc.vars[t.id]
+            elif isinstance(t, ast.Attribute):
+                o = self.ev(t.value, scope)
+                if not isinstance(o, CObj):
+                    raise CUnsupported("attribute deletion")
+                if t.attr not in o.fields:
+                    raise CRaise(AttributeError(t.attr), t)
+                del o.fields[t.attr]
+            else:
+                raise CUnsupported("del target")
+
+    def do_Return(self, s, scope):
+        raise _CReturn(None if s.value is None else self.ev(s.value, scope))
+
+    def do_Break(self, s, scope):
+        raise _CBreak()
+
+    def do_Continue(self, s, scope):
+        raise _CContinue()
+
+    def do_If(self, s, scope):
+        self.block(s.body if self.truth(self.ev(s.test, scope), s.test) else s.orelse, scope)
+
+    def do_While(self, s, scope):
+        while self.truth(self.ev(s.test, scope), s.test):
+            self.tick()
+            try:
+                self.block(s.body, scope)
+            except _CBreak:
+                return
+            except _CContinue:
+                continue
+        self.block(s.orelse, scope)
+
+    def do_For(self, s, scope):
+        for x in self.iterate(self.ev(s.iter, scope), s.iter):
+            self.tick()
+            self.bind(s.target, x, scope)
+            try:
+                self.block(s.body, scope)
+            except _CBreak:
+                return
+            except _CContinue:
+                continue
+        self.block(s.orelse, scope)
+
+    def do_FunctionDef(self, s, scope):
+        self.store(s.name, CClosure(self, s, scope, scope.module, *self._defaults(s, scope)), scope)
+
+    def do_Assert(self, s, scope):
+        # `assert` is never a guard (python -O removes it): a failing one is outside the model
+        if not self.truth(self.ev(s.test, scope), s.test):
+            raise CUnsupported("an assertion fails")
+
+    def do_Global(self, s, scope):
+        pass
+
+    def do_Nonlocal(self, s, scope):
+        pass
+
+    def do_Import(self, s, scope):
+        for a in s.names:
+            q = a.name
+            if q not in _C_SAFE_MODULES:
+                raise CUnsupported("import %s" % q)
+            self.store((a.asname or q).split(".")[0], CModule(q), scope)
+
+    def do_ImportFrom(self, s, scope):
+        for a in s.names:
+            q = "%s.%s" % (s.module, a.name)
+            if s.level or q not in _C_SAFE:
+                raise CUnsupported("from %s import %s" % (s.module, a.name))
+            self.store(a.asname or a.name, _C_SAFE[q], scope)
+
+    def do_Raise(self, s, scope):
+        if s.exc is None:
+            if not self._handling:
+                raise CUnsupported("bare raise outside a handler")
+            raise CRaise(self._handling[-1], s)
+        v = self.ev(s.exc, scope)
+        if s.cause is not None:
+            self.ev(s.cause, scope)
+        if isinstance(v, type) and issubclass(v, BaseException):
+            v = self._py(lambda: v(), s)
+        if not isinstance(v, BaseException):
+            raise CUnsupported("raise of %r" % (v,))
+        raise CRaise(v, s)
+
+    def _exc_types(self, h, scope):
+        if h.type is None:
+            return (BaseException,)
+        t = self.ev(h.type, scope)
+        ts = tuple(t) if isinstance(t, tuple) else (t,)
+        if not all(isinstance(x, type) and issubclass(x, BaseException) for x in ts):
+            raise CUnsupported("except clause %s" % ast.unparse(h.type))
+        return ts
+
+    def do_Try(self, s, scope):
+        try:
+            try:
+                self.block(s.body, scope)
+            except CRaise as r:
+                for h in s.handlers:
+                    if isinstance(r.exc, self._exc_types(h, scope)):
+                        if h.name:
+                            self.store(h.name, r.exc, scope)
+                        self._handling.append(r.exc)
+                        try:
+                            self.block(h.body, scope)
+                        finally:
+                            self._handling.pop()
+                        break
+                else:
+                    raise
+            else:
+                self.block(s.orelse, scope)
+        finally:
+            # control flow leaving a finally block by itself (return/break inside it) is outside the model
+            if s.finalbody:
+                self.block(s.finalbody, scope)
+
+    def do_With(self, s, scope):
+        sup = []
+        for it in s.items:
+            v = self.ev(it.context_expr, scope)
+            if not isinstance(v, _cl.suppress):
+                raise CUnsupported("with %s" % ast.unparse(it.context_expr))
+            if it.optional_vars is not None:
+                self.bind(it.optional_vars, None, scope)
+            sup.extend(v._exceptions)
+        try:
+            self.block(s.body, scope)
+        except CRaise as r:
+            if not isinstance(r.exc, tuple(sup)):
+                raise
+
+
+# ---------------------------------------------------------------------------------------------------------------------
+# The expiry step of TimeoutDict on small concrete tables
+
+
+class TickRun:
+    """the outcome of one concrete run of TimeoutDict._tick"""
+
+    def __init__(self, items0, recent0):
+        self.items0, self.recent0 = items0, recent0
+        self.raised = None
+        self.items = None
+        self.timeout = None
+        self.recent = None
+        self.pending = []
+        self.first_change = None  # the first statement of _tick after which self._items differed from the old table
+        self.last_timer_stmt = None
+
+    def describe(self):
+        ks = lambda d: "{%s}" % ", ".join("k%d" % k[1] for k in d)
+        return "stored %s, used since the previous tick %s" % (ks(self.items0), ks(sorted(self.recent0)))
+
+
+def tick_tables(with_foreign):
+    """(items, recently used keys): every table over three keys with every set of used keys (optionally with a key that
+    is marked as used but not stored), one in another insertion order, and a larger one"""
+    keys = [(0, 1), (0, 2), (0, 3)]
+    foreign = (0, 9)
+    out = []
+    for m in range(8):
+        stored = [k for i, k in enumerate(keys) if m >> i & 1]
+        cands = stored + ([foreign] if with_foreign else [])
+        for a in range(1 << len(cands)):
+            out.append((stored, {k for i, k in enumerate(cands) if a >> i & 1}))
+    out.append((list(reversed(keys)), {keys[0], keys[2]}))
+    big = [(0, i) for i in range(1, 8)]
+    out.append((big, {k for k in big if k[1] % 3 != 1}))
+    out.append((big, {big[0]}))
+    return out
+
+
+def fresh_timeoutdict(ce, prog, cls, items, recent, handle, timeout_value=93.0):
+    """An instance as `__init__(timeout_value)` leaves it (run concretely, so that every field the class keeps exists),
+    put into the given state (the three fields the property is about)."""
+    obj = CObj(cls, {})
+    init = prog.lookup_method(cls.qn, "__init__")
+    if init is not None:
+        try:
+            ce.call_method(obj, init, [timeout_value])
+        except CRaise as r:
+            raise CUnsupported("__init__(timeout) raises %s" % type(r.exc).__name__)
+    if ce.loop.handles:
+        raise CUnsupported("__init__ arms a timer")
+    for f in ("_items", "_recently_accessed", "_timeout"):
+        if f not in obj.fields:
+            raise CUnsupported("__init__ does not set the field %s" % f)
+    if not isinstance(obj.fields["_items"], dict) or obj.fields["_items"]:
+        raise CUnsupported("__init__ does not start with an empty dictionary")
+    obj.fields["_items"] = items
+    obj.fields["_recently_accessed"] = recent
+    obj.fields["_timeout"] = handle
+    return obj
+
+
+def run_tick(prog, cls, tick_fi, stored, recent, timeout_value=93.0):
+    """One run of `_tick` on an instance whose timer has just fired.  -> TickRun; raises CUnsupported."""
+    ce = ConcreteEval(prog)
+    items = {k: CVal("v%d" % k[1]) for k in stored}
+    fired = CHandle(timeout_value, None, ())
+    obj = fresh_timeoutdict(ce, prog, cls, items, set(recent), fired, timeout_value)
+    run = TickRun(dict(items), set(recent))
+    snap = [(id(items), list(items.items()))]
+
+    def hook(stmt, depth):
+        if depth != 1:
+            return
+        cur = obj.fields.get("_items")
+        now = (id(cur), list(cur.items()) if isinstance(cur, dict) else None)
+        if run.first_change is None and now[1] != snap[0][1]:
+            run.first_change = stmt
+        live = [h for h in ce.loop.handles if not h.cancelled]
+        if (len(live), id(obj.fields.get("_timeout"))) != hook.timer:
+            hook.timer = (len(live), id(obj.fields.get("_timeout")))
+            run.last_timer_stmt = stmt
+
+    hook.timer = (0, id(fired))
+    ce.on_stmt = hook
+    try:
+        ce.call_method(obj, tick_fi, [])
+    except CRaise as r:
+        run.raised = r.exc
+    run.items = obj.fields.get("_items")
+    run.timeout = obj.fields.get("_timeout")
+    run.recent = obj.fields.get("_recently_accessed")
+    run.pending = [h for h in ce.loop.handles if not h.cancelled]
+    run.obj = obj
+    run.tick = CMethod(ce, tick_fi, obj)
+    return run
+
+
+def recent_subset_invariant(prog, cls, skip=("__init__",)):
+    """Is `_recently_accessed <= keys(_items)` preserved by every entry point of the class (checked on all states over
+    two keys)?  Then a table in which a key is marked as used but not stored cannot arise, and the expiry step need not
+    cope with it.  -> (bool, reason)"""
+    private = {n for n in cls.methods if n.startswith("_") and not (n.startswith("__") and n.endswith("__"))}
+    # private helpers must not be entered from outside the class
+    for fi in prog.funcs.values():
+        inside = fi.cls is cls or (fi.parent is not None and fi.qn.startswith(cls.qn + "."))
+        if inside:
+            continue
+        for n in ast.walk(fi.node):
+            if isinstance(n, ast.Attribute) and n.attr in private | {"_items", "_recently_accessed"}:
+                if fi.cls is not None and isinstance(n.value, ast.Name) and n.value.id in ("self", "cls"):
+                    continue  # another class's own member of the same name (subclasses are excluded below)
+                return False, "%s is used outside the class (%s)" % (n.attr, fi.short)
+    if any(q != cls.qn for q in prog.subclasses(cls.qn)):
+        return False, "the class has subclasses"
+    keys = [(0, 1), (0, 2)]
+    absent = (0, 3)
+    entries = [fi for n, fi in cls.methods.items() if n not in private and n not in skip]
+    for fi in entries:
+        a = fi.node.args
+        if a.vararg or a.kwarg or a.kwonlyargs or fi.is_async or fi.node.decorator_list:
+            return False, "signature of %s" % fi.short
+        names = [x.arg for x in a.posonlyargs + a.args][1:]
+        required = names[: len(names) - len(a.defaults)] if a.defaults else names
+        if len(required) > 2:
+            return False, "signature of %s" % fi.short
+        for m in range(4):
+            stored = [k for i, k in enumerate(keys) if m >> i & 1]
+            states = [(None, None)] + [({k for i, k in enumerate(stored) if s >> i & 1}, True) for s in range(1 << len(stored))]
+            for recent, running in states:
+                for key in (keys[0], absent):
+                    ce = ConcreteEval(prog)
+                    args = ([key] + [CVal("new")])[: len(required)]
+                    try:
+                        obj = fresh_timeoutdict(ce, prog, cls, {k: CVal("v%d" % k[1]) for k in stored}, None if recent is None else set(recent), CHandle(93.0, None, ()) if running else None)
+                        ce.call_method(obj, fi, args)
+                    except CRaise:
+                        pass
+                    except CUnsupported as u:
+                        return False, "%s: %s" % (fi.short, u)
+                    ra, it = obj.fields.get("_recently_accessed"), obj.fields.get("_items")
+                    if ra is None:
+                        continue
+                    if not isinstance(ra, (set, frozenset)) or not isinstance(it, dict) or not ra <= set(it.keys()):
+                        return False, "%s can mark a key that is not stored" % fi.short
+    return True, None
